@@ -35,6 +35,8 @@ func init() {
 			c.run("C01-S7", "shared with C11-R10: the size-probing hand-shake between the encoder and the ack reader cannot stall a fault-free transfer", c11BufInit)
 			c.run("C01-S8", "shared with C11-R12: stages and the input pump run concurrently (a fault-free transfer cannot stall on a stage that was never started)", c11Launch)
 			c.run("C01-S9", "TYPESTATE: no file or connection is used after an in-line Close of the same value", noUseAfterClose)
+			c.run("C01-S10", "shared with C04-R7: the sender's staging buffer is never storage the send stage may still be reading", c04FreshStaging)
+			c.run("C01-S11", "shared with C11-R2: every read of the transfer waits on a timer of its own (a shared, re-armed timer can have fired unseen and fails the first read after a long pause)", c11R2)
 			c.run("C01-S6", "shared with C07-R2b: one local name per source path id (two sources with the same base name are not merged)", c07MapKey)
 		})
 }
